@@ -594,6 +594,7 @@ func (h *httpServerHandler) handleGet(ctx context.Context, w http.ResponseWriter
 	w.Header().Set(httputil.SessionIDHeader, session.GetID())
 	w.WriteHeader(http.StatusOK)
 	flusher.Flush()
+	verifYield("get:flushed", r)
 
 	// Create context, for canceling connection
 	connCtx, cancelConn := context.WithCancel(ctx)
@@ -619,6 +620,7 @@ func (h *httpServerHandler) handleGet(ctx context.Context, w http.ResponseWriter
 	}
 	h.getSSEConnections[session.GetID()] = conn
 	h.getSSEConnectionsLock.Unlock()
+	verifYield("get:stored", r)
 
 	// Record connection information
 	h.logger.Infof("Established GET SSE connection, session ID: %s", session.GetID())
@@ -630,6 +632,7 @@ func (h *httpServerHandler) handleGet(ctx context.Context, w http.ResponseWriter
 
 	// Wait for connection to close
 	<-connCtx.Done()
+	verifYield("get:woken", r)
 
 	// Clean up connection. Only remove the entry if it is still this connection:
 	// a newer GET stream for the same session may have replaced it already.
